@@ -343,7 +343,7 @@ def is_zero_by_ratnorm(a, b):
                 for mono in list(res_)[:3]:
                     for aid in mono:
                         t_ = rn.memo.get(("atom", aid), (rn.shared.get(aid),))[0]
-                        atoms[aid] = _short(t_, 160) if t_ is not None else "?"
+                        atoms[aid] = _short(t_, 900) if t_ is not None else "?"
                     print("   mono", mono, res_[mono], flush=True)
                 for aid, tx in atoms.items():
                     print("   atom", aid, tx, flush=True)
